@@ -26,6 +26,7 @@ REQUIRED = [
     'EdbVerif.C01.C01_roundtrip', 'EdbVerif.C01.C01_idempotent', 'EdbVerif.C01.C01_parse_wf',
     'EdbVerif.C01.C01_roundtrip_counterexample_neg_pow', 'EdbVerif.C01.C01_roundtrip_counterexample_not_eq',
     'EdbVerif.C01.C01_roundtrip_counterexample_detached_index',
+    'EdbVerif.C01.C01_roundtrip_counterexample_detached_path',
 ]
 
 BLOCK_MODES = [{'unsorted': True}, {'unsorted': True, 'pretty': False}, {'unsorted': True, 'uppercase': True},
